@@ -110,8 +110,10 @@ def multiple_mahalanobis(effect, covariance):
         raise ValueError('Inconsistant shape for covariance')
 
     # transpose and make contuguous for the sake of speed
-    # Kt is inverted in place below, so it must be a copy of the input
-    Xt, Kt = np.ascontiguousarray(effect.T), np.array(covariance.T, order='C')
+    # Kt is inverted in place below, so it must be a copy of the input, and a
+    # floating point one: an integer array cannot hold the inverses
+    Xt = np.ascontiguousarray(effect.T)
+    Kt = np.array(covariance.T, dtype=np.float64, order='C')
 
     # compute the inverse of the covariances
     Kt = multiple_fast_inv(Kt)
